@@ -42,7 +42,14 @@ func archiveInfoRoles(w *World) (offset, step, points string) {
 		if st, ok := t.Type().Underlying().(*types.Struct); ok {
 			for i := 0; i < st.NumFields(); i++ {
 				n := fieldName(st.Field(i))
-				if n != step && n != points {
+				if n == step || n == points {
+					continue
+				}
+				// the offset is the remaining 32-bit unsigned field (a field added beside it, a cache say, is not it)
+				if bt, isB := st.Field(i).Type().(*types.Basic); !isB || bt.Kind() != types.Uint32 {
+					continue
+				}
+				if offset == "" || n == "offset" {
 					offset = n
 				}
 			}
@@ -369,6 +376,7 @@ func rulesC06(w *World, r *Report) {
 	}
 	if bi := need(w, r, "C06.R6", w.Lib, "Whisper.baseInterval"); bi != nil {
 		okRead, okDec := false, false
+		var readCall *ssa.Call
 		for _, c := range callsIn(bi) {
 			cv, ok := c.(*ssa.Call)
 			if !ok {
@@ -378,6 +386,7 @@ func rulesC06(w *World, r *Report) {
 			if isMethodCall(c, fbPath, "FileBuffer", "ReadAt") && len(es) == 3 && es[2] == "p1."+offF {
 				if sl, ok := cv.Common().Args[1].(*ssa.Slice); ok && appendedWidth(sl) == 4 {
 					okRead = true
+					readCall = cv
 				}
 			}
 			if cv.Common().StaticCallee() == fn(w.Lib, "Timestamp.TakeFrom") {
@@ -385,6 +394,20 @@ func rulesC06(w *World, r *Report) {
 			}
 		}
 		r.Check(okRead && okDec, "C06.R6", "baseInterval", w.pos(bi.Pos()), "decodes the 4-byte timestamp at the archive's offset", "baseInterval does not decode the 4 bytes at the archive's offset as a Timestamp")
+		// ... on every call: no answer that did not come through the page buffer (a value remembered beside it is not
+		// what another handle, or this handle after the slot was rewritten, finds in the file)
+		if readCall != nil {
+			bad := ""
+			for _, rt := range returnsOf(bi) {
+				if isFailureReturn(rt) {
+					continue
+				}
+				if !readCall.Block().Dominates(rt.Block()) {
+					bad = "the return at " + w.instrPos(rt) + " answers without reading the slot through the page buffer"
+				}
+			}
+			r.Check(bad == "", "C06.R6", "baseInterval:always-reads-the-file", w.pos(bi.Pos()), "every answer is decoded from the page buffer", "baseInterval: "+bad+": the first slot's time kept outside the page buffer is shared by whatever holds the same layout value and is not what a second handle reads")
+		}
 	}
 	if gp := need(w, r, "C06.R6", w.Lib, "Whisper.getPointOffset"); gp != nil {
 		var rs []string
